@@ -177,7 +177,11 @@ func GenOp(t *rapid.T, w *World, p *Profile) Op {
 	add("setnil", true)
 	add("read", true)
 	add("iter", true)
-	add("pin", w.Latest > 0 && len(w.Pins) < 2)
+	npins := 0
+	for _, exs := range w.Pins {
+		npins += len(exs)
+	}
+	add("pin", w.Latest > 0 && npins < 3)
 	add("unpin", len(w.Pins) > 0)
 	// the importer allocates a nonce table of size version+1: keep imports to realistic version numbers
 	add("hop", w.Latest > 0 && !w.Dirty && w.Latest < 1<<20)
@@ -253,6 +257,15 @@ func GenOp(t *rapid.T, w *World, p *Profile) Op {
 		c := genCfg(t, false)
 		return Op{Kind: "hop", N: rapid.SampledFrom(w.Retained()).Draw(t, "ver"), Flag: rapid.Bool().Draw(t, "compress"), Cfg: &c}
 	case "pin":
+		if len(w.Pins) > 0 && rapid.Bool().Draw(t, "pinSame") {
+			// a second export of a version that is already being exported
+			vs := make([]int64, 0, len(w.Pins))
+			for v := range w.Pins {
+				vs = append(vs, v)
+			}
+			sort.Slice(vs, func(i, j int) bool { return vs[i] < vs[j] })
+			return Op{Kind: "pin", N: vs[0]}
+		}
 		return Op{Kind: "pin", N: rapid.SampledFrom(w.Retained()).Draw(t, "pinv")}
 	case "unpin":
 		vs := make([]int64, 0, len(w.Pins))
